@@ -127,6 +127,7 @@ struct Tx {
   std::string wire;
   dnsref::Msg msg;
   std::string decode_err;
+  size_t trailing = 0;     // bytes after the end of the message (same frame / datagram)
   int token = -1;        // request token parsed from the qname (or -1)
   std::string qname_lc;  // lower-case text of first question
   int api_seq = 0;       // sequence number of the top-level library call in progress
